@@ -383,7 +383,28 @@ func runC11(env *core.Env) {
 		ck = append(ck, k)
 	}
 	sort.Strings(ck)
+	// a plan whose write is cut short (disk fills up in the middle): whole graph or nothing
+	var big planDoc
+	{
+		e := "big plan"
+		big.Title = &e
+		for i := 0; i < 40; i++ {
+			t := fmt.Sprintf("step %02d", i)
+			pt := planTask{Title: &t}
+			if i > 0 {
+				pt.After = []string{fmt.Sprintf("step %02d", i-1)}
+			}
+			big.Tasks = append(big.Tasks, pt)
+		}
+	}
+	bigDoc, _ := json.Marshal(big)
+	planCmds := []crashCmd{
+		{"plan-2", core.R("", "--json", "plan").In(`{"title":"P","tasks":[{"title":"a"},{"title":"b","after":["a"]}]}`)},
+		{"plan-40-chain", core.R("", "--json", "plan").In(string(bigDoc))},
+	}
+	shortCov := map[string]interface{}{"rich": shortWritePhase(env, "C11", rich.Store, planCmds), "torn-tail": shortWritePhase(env, "C11", pres[3], planCmds[:1])}
 	env.Finish("model_checking", map[string]interface{}{
+		"short_write_phase": shortCov,
 		"states": len(pres), "transitions": evals, "traces_validated_against_impl": validated, "samples": samples.list,
 		"exhaustive": env.TimeLeft(), "documents": len(docs) + len(c11Raw), "accepted": acc, "rejected": rej, "outcome_classes": cls,
 		"unconfirmed_candidates": unconfirmed.Load(),
